@@ -43,7 +43,9 @@ def int_to_seq(v, kind="str", max_digits=None):
 def seq_to_int(s, base=10):
     """int(str) / int(bytes) model (base 10 only, ASCII digits; other Unicode decimal
     digits are reported Unsupported if feasible)."""
-    if base != 10:
+    if isinstance(base, SInt):
+        base = ctx().concretize(base.e)
+    if base not in (8, 10):
         raise Unsupported("int() with base")
     s = lift(s)
     c = ctx()
@@ -57,15 +59,26 @@ def seq_to_int(s, base=10):
     if es and c.decide(z3.Or(es[0] == ord("-"), es[0] == ord("+"))):
         neg = c.decide(es[0] == ord("-"))
         i = 1
+    bad = ValueError(f"invalid literal for int() with base {base}")
+    if base == 8:
+        # optional 0o prefix is accepted by int(x, 8)
+        if len(es) - i >= 2 and c.decide(z3.And(es[i] == 48, z3.Or(es[i + 1] == ord("o"), es[i + 1] == ord("O")))):
+            i += 2
+            if len(es) > i and c.decide(es[i] == ord("_")):
+                i += 1
     digs = es[i:]
-    bad = ValueError("invalid literal for int() with base 10")
     if not digs:
         raise bad
-    val = z3.IntVal(0)
+    # accumulate in a bit-vector wide enough for the digit count (no wrap-around)
+    import math
+
+    ndig = len(digs)
+    vw = max(8, int(math.ceil(ndig * math.log2(base))) + 2)
+    val = z3.BitVecVal(0, vw)
     prev_us = True  # underscore not allowed at start
     for k, e in enumerate(digs):
-        if c.decide(z3.And(z3.UGE(e, 48), z3.ULE(e, 57))):
-            val = val * 10 + z3.BV2Int(e) - 48
+        if c.decide(z3.And(z3.UGE(e, 48), z3.ULE(e, 47 + base))):
+            val = val * base + z3.ZeroExt(vw - e.size(), e) - 48 if vw >= e.size() else val * base + z3.Extract(vw - 1, 0, e) - 48
             prev_us = False
             continue
         if c.decide(e == ord("_")):
@@ -77,7 +90,10 @@ def seq_to_int(s, base=10):
             if c.decide(in_ranges(e, _other_decimal_ranges())):
                 raise Unsupported("int() of non-ASCII decimal digit")
         raise bad
-    return mk_int(-val if neg else val)
+    from .core import mk_int_bv
+
+    r = mk_int_bv(val)
+    return -r if neg else r
 
 
 _odr = None
